@@ -39,8 +39,8 @@ func chars(s string) []int {
 
 func runEventLog(c *ctx) error {
 	type cfg struct {
-		expiry          time.Duration
-		max, maxLine    int
+		expiry       time.Duration
+		max, maxLine int
 	}
 	cfgs := []cfg{{time.Hour, 8, 3}, {time.Hour, 1, 3}, {60 * time.Microsecond, 6, 3}, {time.Hour, 6, 2}, {200 * time.Microsecond, 20, 4}}
 	nops := 400
